@@ -315,6 +315,34 @@ impl Family for TypesFlags {
     }
 }
 
+/// PREPARE replies whose two definition lists are each within the 16-bit count fields while their
+/// sum is at, just beyond or far beyond 2^16 (arithmetic on the two counts together)
+struct WidePrepares;
+const WIDE_PAIRS: [(usize, usize); 16] = [(40_000, 30_000), (30_000, 40_000), (65_300, 300), (300, 65_300), (32_768, 32_768), (32_767, 32_768), (32_767, 32_769), (65_000, 535), (65_000, 536), (65_000, 537), (65_535, 1), (1, 65_535), (65_535, 65_535), (65_535, 65_534), (256, 65_280), (65_280, 256)];
+impl Family for WidePrepares {
+    fn ambient(&self, idx: u64) -> u64 {
+        crate::engine::rot(idx)
+    }
+    fn name(&self) -> String {
+        "prepare-count-pairs-whose-sum-crosses-2^16".into()
+    }
+    fn len(&self) -> u64 {
+        WIDE_PAIRS.len() as u64
+    }
+    fn max_threads(&self) -> Option<usize> {
+        Some(8)
+    }
+    fn run(&self, idx: u64, st: &mut Stats) -> Result<(), Violation> {
+        let (np, nc) = WIDE_PAIRS[idx as usize];
+        st.nontrivial += 1;
+        st.bump("wide_prepare_pairs");
+        run_meta(7 + idx as u32, &mk_cols(np, 3), &mk_cols(nc, 4), st).map_err(|v| Violation::new(&v.key, format!("{} parameters and {} columns: {}", np, nc, v.msg)))
+    }
+    fn describe(&self, idx: u64) -> J {
+        json!({"parameters": WIDE_PAIRS[idx as usize].0, "columns": WIDE_PAIRS[idx as usize].1})
+    }
+}
+
 struct PrepareShapes {
     counts: Vec<usize>,
     ids: Vec<u32>,
@@ -896,6 +924,7 @@ pub fn build(quick: bool) -> Check {
             Box::new(Names { lens: vec![0, 1, 250, 251, 252, 65535, 65536, 70000] }),
             Box::new(BulkyLists),
             Box::new(TypesFlags { flags }),
+            Box::new(WidePrepares),
             Box::new(PrepareShapes { counts: vec![0, 1, 2, 250, 251, 1000], ids: vec![0, 1, 255, 256, 65535, 65536, 1 << 31, u32::MAX] }),
             Box::new(super::aftermath::Aftermath { prop: "C09" }),
             Box::new(MetaHistories { evs: meta_events(), depth: 1 }),
